@@ -86,7 +86,7 @@ func validProgram(r *simrt.RNG, tier string) string {
 	return strings.Join(parts, "\n")
 }
 
-var rawAlphabet = []string{"{", "}", "(", ")", "[", "]", ":=", ":", ",", ".", "\"", "'", "r\"", "{{", "}}", "#", "/*", "*/", "\n", " ", "\t", "\r",
+var rawAlphabet = []string{";", "; ", "{", "}", "(", ")", "[", "]", ":=", ":", ",", ".", "\"", "'", "r\"", "{{", "}}", "#", "/*", "*/", "\n", " ", "\t", "\r",
 	"if", "elif", "else", "for", "in", "func", "sink", "try", "except", "finally", "otherwise", "mutex", "import", "as", "let", "return", "and", "or", "not",
 	"a", "b1", "1", "1.5", "e", "e+", "1e+", "1e", "2e-", "E+", "1.e+", ".5", "1e+5", "0x", "1..2", "-", "+", "*", "/", "//", "%", "==", "!=", ">=", "<", "\\", "\x00", "\x7f", "\xff", "\xc3", "\xe2\x82", "é", "€", "null", "true", "kindmatch", "priority"}
 
@@ -263,7 +263,7 @@ func GenInput(r *simrt.RNG, tier string) Plan {
 		case 5: // a comment at a token boundary (comments may stand between any two tokens)
 			return Plan{src[:cuts[i]] + []string{"/* c */", " /* c */ ", "# c\n", "/**/"}[r.Intn(4)] + src[cuts[i]:], "mutated"}
 		case 3: // stray closer / opener / newline
-			return Plan{src[:cuts[i]] + []string{"}", "{", ")", "(", "]", "[", "\n", ","}[r.Intn(8)] + src[cuts[i]:], "mutated"}
+			return Plan{src[:cuts[i]] + []string{"}", "{", ")", "(", "]", "[", "\n", ",", ";", "; $"}[r.Intn(10)] + src[cuts[i]:], "mutated"}
 		case 4: // replace a token by a random fragment
 			return Plan{src[:cuts[i]] + rawAlphabet[r.Intn(len(rawAlphabet))] + " " + src[cuts[i+1]:], "mutated"}
 		default: // truncate at a token boundary
